@@ -202,6 +202,29 @@ class Run(object):
         self.entry_states = []
         self._loop_ids = None
 
+    def _init_bare(self, engine, qual):
+        """a Run without a function: used to evaluate pure-spec lemmas"""
+        self.engine = engine
+        self.qual = qual
+        self.module = engine.repo.module("vsg.rule")
+        self.inner = None
+        self.fdef = None
+        self.cls = None
+        self.contract = {}
+        self.obls = []
+        self.loop_ord = 0
+        self.site_ord = {}
+        self.inlined = set()
+        self.called = set()
+        self.notes = []
+        self.try_depth = []
+        self.spec_mode = 0
+        self.old_state = None
+        self.result_value = None
+        self.in_loop_effects = None
+        self.entry_states = []
+        self._loop_ids = None
+
     # ------------------------------------------------------------ utilities
     def fresh(self, base, sort):
         base = "".join(c if c.isalnum() or c == "_" else "_" for c in base)
@@ -910,7 +933,7 @@ class Run(object):
 
     # ------------------------------------------------------------------ calls
     def ev_Call(self, node, st):
-        if self.spec_mode and isinstance(node.func, ast.Name) and node.func.id in ("old", "forall", "exists", "implies", "entry"):
+        if self.spec_mode and isinstance(node.func, ast.Name) and node.func.id in ("old", "forall", "exists", "implies", "entry", "lasthead"):
             return self.spec_form(node, st)
         f = self.ev(node.func, st)
         if not isinstance(f, (FuncV, ClassV)):
@@ -932,6 +955,25 @@ class Run(object):
 
     def spec_form(self, node, st):
         name = node.func.id
+        if name == "lasthead":
+            # lasthead(k, e): value of e at the head of the last started iteration of loop k (exit by break)
+            kk = node.args[0].value
+            h = st.ghost.get("#lasthead%d" % kk)
+            if h is None:
+                probe = State()
+                probe.env = {}
+                # unconstrained value of the right sort: evaluate in the current state to learn the sort
+                v = self.ev(node.args[1], st.fork())
+                if isinstance(v, T):
+                    return self.fresh("lasthead", v.sort)
+                if isinstance(v, ListV):
+                    return ListV(self.new_cell(st, self.fresh("lasthead", self.raw(st, v).sort)), v.elem)
+                raise Unsupported("lasthead of %r" % (v,))
+            h2 = h.fork()
+            v = self.ev(node.args[1], h2)
+            if isinstance(v, ListV):
+                return ListV(self.new_cell(st, h2.cells[v.cell][0]), v.elem)
+            return v
         if name in ("old", "entry"):
             o = self.old_state if name == "old" else (self.entry_states[-1] if self.entry_states else None)
             if o is None:
@@ -1032,7 +1074,12 @@ class Run(object):
             seq = Empty(parse_type(tpl["elem"]).sort())
         else:
             seq = self.raw(st, seqv)
-        ctx = [self.raw(st, a) for a in args[1:]]
+        ctx = []
+        for a, ct in zip(args[1:], tpl["ctx_types"]):
+            if isinstance(a, ListV) and st.cells[a.cell][0] is None:
+                ctx.append(Empty(parse_type(ct).arg.sort()))
+            else:
+                ctx.append(self.raw(st, a))
         if len(ctx) != len(tpl["ctx"]):
             raise Unsupported("spec function %s expects %d context arguments" % (name, len(tpl["ctx"])))
         hidden = []
@@ -1415,8 +1462,26 @@ class Run(object):
         if rt:
             res = self.fresh_value(st, parse_type(rt), "ret_" + q.split(".")[-1])
         post_env = dict(env)
-        for e in contract.get("ensures", []):
-            st.assume(self.guarded(st, self.spec_bool(e, st, env=post_env, old=pre_state, result=res)))
+        import re as _re
+
+        ens = contract.get("ensures", [])
+        names = set(_re.findall(r"\b_n\d+\b", " ".join(ens)))
+        heads = set(_re.findall(r"lasthead\((\d+)", " ".join(ens)))
+        saved_g = {n: st.ghost.get(n) for n in names}
+        saved_h = {"#lasthead" + h: st.ghost.get("#lasthead" + h) for h in heads}
+        for n in names:
+            st.ghost[n] = self.fresh("callee" + n, INT)
+        for h in heads:
+            st.ghost.pop("#lasthead" + h, None)
+        try:
+            for e in ens:
+                st.assume(self.guarded(st, self.spec_bool(e, st, env=post_env, old=pre_state, result=res)))
+        finally:
+            for n, v in list(saved_g.items()) + list(saved_h.items()):
+                if v is None:
+                    st.ghost.pop(n, None)
+                else:
+                    st.ghost[n] = v
         alias = contract.get("result_alias")
         if alias:
             res = env[alias]
@@ -1906,6 +1971,7 @@ class Run(object):
             body.env.pop(t, None)
         self.assign(body, s.target, it.elem(body, iv), s)
         exits = []
+        body_head = body.fork()
         for c in self.exec_block(s.body, body):
             if c.kind in ("normal", "continue"):
                 c.st.ghost[gi] = Add(iv, I(1))
@@ -1913,12 +1979,16 @@ class Run(object):
                 for k, inv in enumerate(invs):
                     self.prove(c.st, self.spec_bool(inv, c.st), "inv-step", s, "L%d.%d" % (ordn, k + 1))
             elif c.kind == "break":
+                c.st.ghost["_n%d" % ordn] = Add(iv, I(1))
+                c.st.ghost["#lasthead%d" % ordn] = body_head
                 exits.append(c.st)
             else:
                 out.append(c)
         # 4. after the loop
         after = head
         after.assume(Eq(iv, it.len))
+        after.ghost["_n%d" % ordn] = it.len
+        after.ghost.pop("#lasthead%d" % ordn, None)
         self.entry_states.pop()
         for e in exits + [after]:
             if outer_i is not None:
